@@ -1,2 +1,2 @@
-import NipyVerif.Model.C14
-def main : IO Unit := NipyVerif.driverLoop NipyVerif.C14.run
+import NipyVerif.Model.C14W
+def main : IO Unit := NipyVerif.driverLoop NipyVerif.C14.runW
